@@ -662,6 +662,7 @@ def check(facts, rep, tier, cfg):
     rep.rule("C19.S7", "no new process-wide mutable state (static cell / lock / once-cell) in the files this property is anchored in")
     import whomay
     whomay.check_new_statics(facts, rep, "C19.S7", "C19")
+    whomay.check_new_trait_methods(facts, rep, "C19.S7", "C19")
 
 
 IO_RETRY = ["ConnectionRefused", "ConnectionReset", "ConnectionAborted", "NotConnected", "BrokenPipe", "TimedOut", "UnexpectedEof",
